@@ -478,22 +478,47 @@ func checkC10(r *Run) {
 	}
 	// ---- R-C10-5
 	serve := c.Method("BaseClient", "serve")
-	for _, name := range []string{"PubAck", "PubRec", "PubComp", "SubAck", "UnsubAck", "ConnAck", "PingResp"} {
-		m := c.Method("signaller", name)
-		if m == nil {
-			r5.Lost("(*signaller)."+name, "not found")
+	// the deleting look-ups: functions that delete from a map field of the signaller
+	nDel := 0
+	for _, m := range c.Funcs {
+		deletes := false
+		eachInstr(m, func(in ssa.Instruction) {
+			cc := callCommon(in)
+			if cc == nil {
+				return
+			}
+			b, ok := cc.Value.(*ssa.Builtin)
+			if !ok || b.Name() != "delete" || len(cc.Args) != 2 {
+				return
+			}
+			if ld, ok := cc.Args[0].(*ssa.UnOp); ok {
+				if fa, ok := ld.X.(*ssa.FieldAddr); ok && typeName(fa.X.Type()) == "signaller" {
+					deletes = true
+				}
+			}
+		})
+		if !deletes {
+			continue
+		}
+		nDel++
+		name := FuncName(m)
+		if m == serve {
+			r5.OK(name, m.Pos(), "the look-up and its delete are part of serve itself")
 			continue
 		}
 		bad := false
 		for _, site := range la.callers[m] {
 			if site.Parent() != serve {
 				bad = true
-				r5.Bad("(*signaller)."+name, site.Pos(), "%s is called from %s: the look-up deletes under a read lock, which is only safe while a single goroutine (the reader) performs look-ups", name, FuncName(site.Parent()))
+				r5.Bad(name, site.Pos(), "%s is called from %s: the look-up deletes under a read lock, which is only safe while a single goroutine (the reader) performs look-ups", name, FuncName(site.Parent()))
 			}
 		}
 		if !bad {
-			r5.OK("(*signaller)."+name, m.Pos(), "called only from serve (%d site(s))", len(la.callers[m]))
+			r5.OK(name, m.Pos(), "called only from serve (%d site(s))", len(la.callers[m]))
 		}
+	}
+	if nDel == 0 {
+		r5.Lost("(*signaller) look-ups", "no function deletes a waiter from the signaller")
 	}
 	// ---- R-C10-6
 	idAcc := byField["BaseClient.idLast"]
